@@ -229,6 +229,9 @@ func checkC02(c *Ctx) {
 
 	// ---- R3 flags
 	checkValidationFlags(c, gen)
+	checkRequiredWiring(c, "C02.R3.flags", gen)
+	checkBoundPairShortcuts(c, gen)
+	checkMapStackLift(c, gen)
 	checkFormatNormalisation(c, "C02.R3.format-normalisation", gen)
 }
 
@@ -464,4 +467,113 @@ func checkFormatNormalisation(c *Ctx, rule string, gen *packages.Package) {
 	if n < 2 {
 		c.Unk(rule, "format lookups", "", fmt.Sprintf("found %d variable-key lookups in formatMapping, expected the schema and the simple-schema resolvers", n))
 	}
+}
+
+var boundPairRx = regexp.MustCompile(`\.(Min|Max)(Properties|Items|Length|imum) == nil`)
+
+// checkBoundPairShortcuts: a shortcut (early return / continue) guarded by tests of both bounds
+// of a pair (minProperties/maxProperties, minItems/maxItems, …) must only fire when both are
+// absent: small-model evaluation of the condition with exactly one bound present.
+func checkBoundPairShortcuts(c *Ctx, gen *packages.Package) {
+	rule := "C02.R3.bound-pairs"
+	c.Rule(rule, "a shortcut guarded by the absence of a lower and an upper bound fires only when both are absent", 1)
+	info := gen.TypesInfo
+	n := 0
+	for _, fd := range load.AllFuncs(gen) {
+		fd := fd
+		ast.Inspect(fd.Body, func(nd ast.Node) bool {
+			is, ok := nd.(*ast.IfStmt)
+			if !ok || len(is.Body.List) == 0 {
+				return true
+			}
+			if !goan.Terminates(info, is.Body.List) {
+				return true
+			}
+			atoms := map[string]bool{}
+			boolAtoms(is.Cond, atoms)
+			pairs := map[string][2]string{} // kind → (min atom, max atom)
+			for a := range atoms {
+				if m := boundPairRx.FindStringSubmatch(a); m != nil && strings.HasSuffix(a, "== nil") {
+					p := pairs[m[2]]
+					if m[1] == "Min" {
+						p[0] = a
+					} else {
+						p[1] = a
+					}
+					pairs[m[2]] = p
+				}
+			}
+			for kind, p := range pairs {
+				if p[0] == "" || p[1] == "" {
+					continue
+				}
+				n++
+				bad := ""
+				for _, present := range [][2]bool{{true, false}, {false, true}} {
+					env := map[string]bool{}
+					for a := range atoms {
+						env[a] = false
+					}
+					env[p[0]] = !present[0] // "== nil" is true when absent
+					env[p[1]] = !present[1]
+					if boolEval(is.Cond, env) {
+						bad = fmt.Sprintf("min present=%v, max present=%v", present[0], present[1])
+					}
+				}
+				c.Check(bad == "", rule, fmt.Sprintf("generator.%s › shortcut on Min/Max%s absent", load.FuncName(fd), kind), c.posOf(gen, is.Pos()), "fires only when both bounds are absent",
+					fmt.Sprintf("`%s` skips the %s handling with %s: a schema carrying only one of the two bounds gets no validation for it", goan.ExprString(is.Cond), kind, bad))
+			}
+			return true
+		})
+	}
+	if n == 0 {
+		c.Unk(rule, "generator › bound-pair shortcuts", "", "no shortcut on a Min*/Max* pair found (anchor: buildAdditionalProperties)")
+	}
+}
+
+// checkMapStackLift: when a nested map stops on a $ref or an alias that must be validated, the
+// level above is told so — both its own HasValidations and that of its additionalProperties.
+func checkMapStackLift(c *Ctx, gen *packages.Package) {
+	rule := "C02.R3.flags"
+	fd := load.FuncDecl(gen, "mapStack.Build")
+	if fd == nil {
+		c.Anchor(rule, "generator.mapStack.Build", "not found")
+		return
+	}
+	nBlocks, badPos := 0, ""
+	ast.Inspect(fd.Body, func(n ast.Node) bool {
+		is, ok := n.(*ast.IfStmt)
+		if !ok {
+			return true
+		}
+		cs := goan.ExprString(is.Cond)
+		if !strings.Contains(cs, "IsAliased") && !strings.Contains(cs, "Ref.String()") {
+			return true
+		}
+		own, addl, any := false, false, false
+		for _, st := range is.Body.List {
+			as, ok := st.(*ast.AssignStmt)
+			if !ok || len(as.Lhs) != 1 || !goan.IsIdent(as.Rhs[0], "true") || goan.LastSel(as.Lhs[0]) != "HasValidations" {
+				continue
+			}
+			any = true
+			path := goan.SelectorPath(as.Lhs[0])
+			switch {
+			case strings.HasSuffix(path, "GenSchema.AdditionalProperties.HasValidations"):
+				addl = true
+			case strings.HasSuffix(path, "GenSchema.HasValidations"):
+				own = true
+			}
+		}
+		if any {
+			nBlocks++
+			if !(own && addl) {
+				badPos = c.posOf(gen, is.Pos())
+			}
+		}
+		return true
+	})
+	own, addl := badPos == "", nBlocks >= 2
+	c.Check(own && addl, rule, "generator.mapStack.Build › a validated $ref/alias element lifts HasValidations to the enclosing map and its additionalProperties", c.posOf(gen, fd.Pos()), "both flags set under the ref/alias test",
+		fmt.Sprintf("in mapStack.Build a `$ref or alias` block (%s) does not set both the enclosing level's GenSchema.HasValidations and its AdditionalProperties.HasValidations (all blocks complete=%v, %d blocks found): a map of maps whose inner values are a named, validated type is generated without the loop that validates them", badPos, own, nBlocks))
 }
